@@ -44,7 +44,7 @@ PLAN = {
                        "restricted double mutations), jsondeep (nesting 1..1000), b64, utf8 (<= 4 bytes), escape, digest "
                        "table, yamltok (<= 3 YAML tokens)", 5, None, None),
         ("thorough_b", "json16: all strings of exactly 5 symbols over the 16 characters of the JSON alphabet; "
-                       "yamltok: all strings of exactly 4 YAML tokens", 5, None, None),
+                       "yamltok: all strings of exactly 4 of 20 YAML tokens", 5, None, None),
         ("jsonsim", "random walks of token mutations over JSON documents (seeded)", 1, 30, 6),
         ("radixsim", "random digit strings grown digit by digit (seeded)", 1, 200, 130),
     ],
@@ -57,8 +57,9 @@ def _h(*parts):
 
 
 class Judge:
-    def __init__(self, chk):
+    def __init__(self, chk, seed):
         self.chk = chk
+        self.seed = seed
         self.classes = {}      # fn -> expected class -> count
         self.observed = {}     # fn -> observed class -> count
         self.replayed = 0
@@ -87,7 +88,9 @@ class Judge:
             else:
                 mani = "none" if deep else "single"
                 out.append(({"k": "eval", "src": f"std.parseJson({lit})", "manifest": mani}, "main"))
-                out.append(({"k": "eval", "src": f"std.parseYaml({lit})", "manifest": mani}, "yaml"))
+                # json16 (1 M strings): std.parseYaml on every text inside the claim and on a seeded quarter of the rest
+                if c["u"] != "json16" or c["exp"]["yaml"] or _h(self.seed, inp)[0] % 4 == 0:
+                    out.append(({"k": "eval", "src": f"std.parseYaml({lit})", "manifest": mani}, "yaml"))
         elif fn == "parseYaml":
             out.append(({"k": "eval", "src": f"std.parseYaml({render.str_lit(U.S(inp))})", "manifest": "single"}, "total"))
         else:
@@ -311,7 +314,7 @@ def run(tier, seed):
         "std.parseYaml on non-JSON input is checked for totality only (the property claims no more)",
     ]
     vlib.build_harness()
-    judge = Judge(chk)
+    judge = Judge(chk, seed)
     seen = set()
     plan = PLAN[tier]
     sim_cases = 0
